@@ -38,7 +38,8 @@ instance (r : TextRow) : Decidable r.Clean := by unfold TextRow.Clean; infer_ins
 /-- the value a row has when read back -/
 def TextRow.value? (r : TextRow) : Option DailyRate := (parseDec r.rate).map (fun v => ⟨r.date, v⟩)
 
-theorem lines_of_render (dt : DateText) (hdt : dt.OK) (rows : List TextRow) (hc : ∀ r ∈ rows, r.Clean) :
+theorem lines_of_render (dt : DateText) {dom : Int → Prop} (hdt : dt.OK dom) (rows : List TextRow)
+    (hc : ∀ r ∈ rows, r.Clean) (hd : ∀ r ∈ rows, dom r.date) :
     splitChar '\n' (renderRows dt rows) = rows.map (fun (r : TextRow) => dt.render r.date ++ ',' :: r.rate) ++ [[]] := by
   induction rows with
   | nil => simp [renderRows, splitChar]
@@ -46,27 +47,29 @@ theorem lines_of_render (dt : DateText) (hdt : dt.OK) (rows : List TextRow) (hc 
     have hr := hc r (List.mem_cons_self ..)
     have hnl : '\n' ∉ dt.render r.date ++ ',' :: r.rate := by
       simp only [List.mem_append, List.mem_cons, not_or]
-      exact ⟨hdt.noNewline _, by decide, hr.2⟩
+      exact ⟨hdt.noNewline _ (hd r (List.mem_cons_self ..)), by decide, hr.2⟩
     have : renderRows dt (r :: rs) = (dt.render r.date ++ ',' :: r.rate) ++ '\n' :: renderRows dt rs := by
       simp [renderRows, renderRow]
-    rw [this, splitChar_append_sep _ _ _ hnl, ih (fun x hx => hc x (List.mem_cons_of_mem _ hx))]
+    rw [this, splitChar_append_sep _ _ _ hnl, ih (fun x hx => hc x (List.mem_cons_of_mem _ hx))
+      (fun x hx => hd x (List.mem_cons_of_mem _ hx))]
     simp
 
-theorem fields_of_line (dt : DateText) (hdt : dt.OK) (r : TextRow) (hr : r.Clean) :
+theorem fields_of_line (dt : DateText) {dom : Int → Prop} (hdt : dt.OK dom) (r : TextRow) (hr : r.Clean)
+    (hd : dom r.date) :
     splitChar ',' (dt.render r.date ++ ',' :: r.rate) = [dt.render r.date, r.rate] := by
-  rw [splitChar_append_sep _ _ _ (hdt.noComma _), splitChar_no_sep _ _ hr.1]
+  rw [splitChar_append_sep _ _ _ (hdt.noComma _ hd), splitChar_no_sep _ _ hr.1]
 
-theorem readRecords_rendered (dt : DateText) (hdt : dt.OK) (rows : List TextRow)
-    (hc : ∀ r ∈ rows, r.Clean) (exp : Option Nat) (he : exp = none ∨ exp = some 2) :
+theorem readRecords_rendered (dt : DateText) {dom : Int → Prop} (hdt : dt.OK dom) (rows : List TextRow)
+    (hc : ∀ r ∈ rows, r.Clean) (hd : ∀ r ∈ rows, dom r.date) (exp : Option Nat) (he : exp = none ∨ exp = some 2) :
     readRecords dt exp (rows.map (fun (r : TextRow) => [dt.render r.date, r.rate]) ++ [[[]]]) =
       rows.filterMap TextRow.value? := by
   induction rows generalizing exp with
   | nil => simp [readRecords]
   | cons r rs ih =>
-    have hrs := ih (fun x hx => hc x (List.mem_cons_of_mem _ hx))
+    have hrs := ih (fun x hx => hc x (List.mem_cons_of_mem _ hx)) (fun x hx => hd x (List.mem_cons_of_mem _ hx))
     have hne : ¬ ([dt.render r.date, r.rate] = [[]]) := by simp
     have hrec : (parseRecord dt [dt.render r.date, r.rate]).toList = (r.value?).toList := by
-      simp only [parseRecord, hdt.roundtrip, TextRow.value?]
+      simp only [parseRecord, hdt.roundtrip _ (hd r (List.mem_cons_self ..)), TextRow.value?]
       cases parseDec r.rate <;> simp
     simp only [List.map_cons, List.cons_append, readRecords, hne, if_false]
     rcases he with he | he
@@ -81,20 +84,20 @@ theorem readRecords_rendered (dt : DateText) (hdt : dt.OK) (rows : List TextRow)
 
 /-- **The cache file reads back what was written**: `get_rates_from_csv (write_rates rows) = rows`
     (each rate with the value its text denotes). -/
-theorem cachefile_roundtrip (dt : DateText) (hdt : dt.OK) (rows : List TextRow)
-    (hc : ∀ r ∈ rows, r.Clean) :
+theorem cachefile_roundtrip (dt : DateText) {dom : Int → Prop} (hdt : dt.OK dom) (rows : List TextRow)
+    (hc : ∀ r ∈ rows, r.Clean) (hd : ∀ r ∈ rows, dom r.date) :
     parseFile dt (renderRows dt rows) = rows.filterMap TextRow.value? := by
   unfold parseFile
-  rw [lines_of_render dt hdt rows hc]
+  rw [lines_of_render dt hdt rows hc hd]
   have : (rows.map (fun (r : TextRow) => dt.render r.date ++ ',' :: r.rate) ++ [[]]).map (splitChar ',') =
       rows.map (fun (r : TextRow) => [dt.render r.date, r.rate]) ++ [[[]]] := by
     simp only [List.map_append, List.map_map, List.map_cons, List.map_nil]
     congr 1
     · apply List.map_congr_left
       intro r hr
-      exact fields_of_line dt hdt r (hc r hr)
+      exact fields_of_line dt hdt r (hc r hr) (hd r hr)
   rw [this]
-  exact readRecords_rendered dt hdt rows hc none (Or.inl rfl)
+  exact readRecords_rendered dt hdt rows hc hd none (Or.inl rfl)
 
 /-! ### Crash states -/
 
